@@ -817,6 +817,9 @@ class Signature:
         bound_args: BoundArgs = {}
         star_args_consumed = False
         star_kwargs_consumed = False
+        # Whether some parameter (**kwargs, ..., a ParamSpec) takes the keyword
+        # arguments that no named parameter matched.
+        extra_keywords_consumed = False
         param_spec_consumed = False
 
         for param in self.parameters.values():
@@ -1023,6 +1026,7 @@ class Signature:
                 bound_args[param.name] = position, Composite(star_args_value)
             elif param.kind is ParameterKind.VAR_KEYWORD:
                 star_kwargs_consumed = True
+                extra_keywords_consumed = True
                 items = {}
                 for key, (
                     definitely_provided,
@@ -1055,6 +1059,7 @@ class Signature:
                 # just take it all
                 star_args_consumed = True
                 star_kwargs_consumed = True
+                extra_keywords_consumed = True
                 param_spec_consumed = True
                 val = AnyValue(AnySource.ellipsis_callable)
                 bound_args[param.name] = UNKNOWN, Composite(val)
@@ -1073,6 +1078,7 @@ class Signature:
                     is actual_args.star_kwargs.param_spec
                 ):
                     star_kwargs_consumed = True
+                    extra_keywords_consumed = True
                     star_args_consumed = True
                     composite = Composite(
                         TypeVarValue(
@@ -1101,6 +1107,7 @@ class Signature:
                     )
                     star_args_consumed = True
                     star_kwargs_consumed = True
+                    extra_keywords_consumed = True
                     val = CallValue(new_actuals)
                     bound_args[param.name] = UNKNOWN, Composite(val)
             else:
@@ -1113,7 +1120,7 @@ class Signature:
                 ctx,
             )
             return None
-        if not star_kwargs_consumed:
+        if not extra_keywords_consumed:
             extra_kwargs = set(actual_args.keywords) - keywords_consumed
             if extra_kwargs:
                 extra_kwargs_str = ", ".join(map(repr, sorted(extra_kwargs)))
